@@ -60,17 +60,22 @@ def payloadOk (p : List Char) : Bool :=
     match affOfLetter a, roleOfLetter r with
     | some aff, some role =>
       let flags := rest.dropWhile fun c => c.isDigit || c = '+'
-      flags.all (fun c => c = 'r' || c = 'x' || c = 'd' || c = 'e' || c = 's') &&
+      flags.all (fun c => c = 'r' || c = 'x' || c = 'd' || c = 'e' || c = 's' || c = 't') &&
         (flags.contains 'x' || (decodeItem ⟨aff, role⟩).isSome)
     | _, _ => false
   | _ => false
 
-/-- `<a>` or `<a>:<payload>` -/
-def presAddr (r : List Char) : Option Nat :=
+/-- `<a>` or `<a>:<payload>`: the address, and how often the handler runs for the presence — the
+multiplexer calls it once per muc#user child (flag `t`: the payload stands twice) -/
+def presAddr (r : List Char) : Option (Nat × Nat) :=
   match (String.ofList r).splitOn ":" with
-  | [as] => as.toNat?
-  | [as, p] => if payloadOk p.toList then as.toNat? else none
+  | [as] => as.toNat?.map fun a => (a, 1)
+  | [as, p] => if payloadOk p.toList then as.toNat?.map fun a => (a, if p.toList.contains 't' then 2 else 1) else none
   | _ => none
+
+def stepN (s : St) (a : Act) : Nat → Option St
+  | 0 => some s
+  | n + 1 => (step s a).bind fun s' => stepN s' a n
 
 /-- configuration token: stanza namespace of the session, and whether the application has set the
 callbacks (`n`: it has not — the bookkeeping is the same, nothing is called) -/
@@ -137,8 +142,8 @@ def applyTok (ns : String) (n : Nat) (s : St) (tok : String) : Option St :=
     | [cs, as] => do let c ← idx cs.toList; let a ← as.toNat?; step s (.joinAbort c a)
     | _ => none
   | 's' :: r => do let _ ← idx r; some s   -- entering the select is not a model step
-  | 'A' :: r => do let a ← presAddr r; step s (.avail a)
-  | 'U' :: r => do let a ← presAddr r; step s (.unavail a)
+  | 'A' :: r => do let (a, k) ← presAddr r; stepN s (.avail a) k
+  | 'U' :: r => do let (a, k) ← presAddr r; stepN s (.unavail a) k
   | 'E' :: 'j' :: r => do
     let (cs, k) ← replyChan ns r
     let c ← idx cs
